@@ -297,3 +297,14 @@ pub fn vec_snapshot_iter_agrees<const PRE: usize, const ACTUAL: usize>() {
     kani::cover!(true);
     std::mem::forget(v);
 }
+
+/// a payload type WITHOUT drop glue: the matcher columns filled for it must still be destroyed when
+/// the vector is dropped.  Checked with CBMC's memory-leak check (the columns own heap blocks).
+pub fn vec_drop_plain_payload_no_leak() {
+    let v: Vec<u32> = Vec::with_capacity(0, 1);
+    let a: u32 = kani::any();
+    v.push(a, fill_from);
+    v.push(a, fill_from);
+    drop(v);
+    kani::cover!(true);
+}
